@@ -72,6 +72,10 @@ def main():
                 if not any(c.tag in ("failure", "error", "skipped") for c in tc):
                     passed.add(tc.get("classname") + "::" + tc.get("name"))
             res["stable_failing"] = sorted(stable - passed)
+        if "--no-checks" in flags:
+            res["confirmed"] = res["demo_clean_rc"] == 0 and res["demo_patched_rc"] != 0 and not res.get("stable_failing")
+            print(json.dumps(res, indent=1))
+            return 0
         # the checks, on /repo itself
         rc, out = sh("git -C /repo status --porcelain")
         assert not out.strip().replace("WARNING conda.cli.condarc:set_key(484): Key auto_activate_base is an alias of auto_activate; setting value with latter", "").strip(), "/repo not clean: %s" % out
